@@ -89,7 +89,7 @@ func runC41(c *Ctx) {
 		var abLoad ssa.Value
 		Instrs(fn, func(in ssa.Instruction) {
 			if st, ok := in.(*ssa.Store); ok {
-				if al, isA := st.Addr.(*ssa.Alloc); isA && al.Comment == "ab" && strings.HasPrefix(u.Describe(st.Val), "out.batches[") {
+				if al, isA := st.Addr.(*ssa.Alloc); isA && u.VarName(al) == "ab" &&strings.HasPrefix(u.Describe(st.Val), "out.batches[") {
 					abStore = st
 				}
 			}
